@@ -57,6 +57,11 @@ var vC04Catalogue = []vComp{
 		{regs: []vReg{{"MOUNT", "b", "", "", ""}, {"GET", "c", "s", "", ""}}, mounts: []int{2}},
 		{regs: []vReg{{"GET", "d", "s", "", ""}}},
 	}, names: nil, lens: []int{4, 6, 7}, methods: []string{"GET"}},
+	// a sub-app mounted at the root whose routes are spelled with upper case and a trailing slash
+	/* 9*/ {apps: []vCompApp{
+		{regs: []vReg{{"MOUNT", "/", "", "", ""}, {"GET", "/z", "s", "", ""}}, mounts: []int{1}},
+		{regs: []vReg{{"GET", "/Pr", "s", "", ""}, {"GET", "/it/", "s", "", ""}, {"USE", "/Q", "n", "", ""}}},
+	}, names: nil, lens: []int{2, 3, 4}, methods: []string{"GET"}},
 }
 
 type vC04World struct {
